@@ -88,8 +88,11 @@ func (c *MemConn) SetKeepAlivePeriod(time.Duration) error { return nil }
 //go:norace
 func (c *MemConn) SetKeepAliveConfig(KeepAliveConfig) error { return nil }
 
+// SetLinger(sec > 0): Close waits until the peer has read what was written, at most sec seconds (of the
+// virtual clock) - as a TCP socket with SO_LINGER does. 0 and negative values: Close returns at once.
+//
 //go:norace
-func (c *MemConn) SetLinger(int) error { return nil }
+func (c *MemConn) SetLinger(sec int) error { c.linger = sec; return nil }
 
 //go:norace
 func (c *MemConn) SetReadBuffer(int) error { return nil }
